@@ -199,6 +199,7 @@ type c17bCase struct {
 	N      int   `json:"n"`
 	TTL    int   `json:"ttl"` // 0 forever, 1 = 1 h (finite but long)
 	Spin   []int `json:"spin"`
+	Noise  int   `json:"noise,omitempty"` // schedule noise (see noise_test.go)
 }
 
 func genC17b(t *rapid.T) c17bCase {
@@ -208,6 +209,9 @@ func genC17b(t *rapid.T) c17bCase {
 	c.TTL = rapid.IntRange(0, 1).Draw(t, "ttl")
 	for i := 0; i < c.N; i++ {
 		c.Spin = append(c.Spin, rapid.SampledFrom([]int{0, 0, 10, 100, 1000, 10000}).Draw(t, fmt.Sprintf("spin%d", i)))
+	}
+	if rapid.Bool().Draw(t, "noise?") {
+		c.Noise = rapid.IntRange(1, 1000).Draw(t, "noise")
 	}
 	return c
 }
@@ -226,6 +230,11 @@ func runC17b(c c17bCase) *vlib.Outcome {
 	if err != nil {
 		o.Fail("NEWSYSTEM", "%v", err)
 		return o
+	}
+	if c.Noise > 0 {
+		_, end := startNoise(c.Noise)
+		defer end()
+		o.Label("schedule-noise")
 	}
 	// pre-populate storage through a first system life? (memory storage is
 	// per system) -- the location starts empty; each client's first request
